@@ -604,11 +604,23 @@ package originium
 //@ before_call (*os.File).Write#0: ghost FlushBytes = string(tableBytes)
 //@ after_call os.OpenFile#0: ghost FlushOut = FdPath[ref(result0)]
 //
+// (C02/C03: what is flushed) the list handed to flushToL0 is the very slice memtable.all returned
+// for this memtable - not a filtered or re-sliced copy - and the wal removed is this memtable's.
+//@ ghost AllArr Int
+//@ ghost AllOff Int
+//@ ghost AllLen Int
+//@ ghost AllMt Int
 //@ func (*originium.DB).flushImmutable
-//@ props C14 C03
+//@ props C14 C03 C02
 //@ requires imt != nil && imt.wal != nil && walOK(imt.wal) && db.manager != nil
 //@ thin ^assert|^pre\..*wal
 //@ assigns writeset
+//@ after_call (*originium.memtable).all#0: ghost AllArr = arrid(result)
+//@ after_call (*originium.memtable).all#0: ghost AllOff = offof(result)
+//@ after_call (*originium.memtable).all#0: ghost AllLen = len(result)
+//@ after_call (*originium.memtable).all#0: ghost AllMt = ref(arg0)
+//@ before_call (*originium.levelManager).flushToL0#0: assert AllMt == ref(imt) && arrid(arg1) == AllArr && offof(arg1) == AllOff && len(arg1) == AllLen
+//@ before_call (*wal.WAL).Delete#0: assert arg0 == imt.wal
 //@ before_call (*wal.WAL).Delete#0: assert DskEx[FlushOut] && DskSync[FlushOut] == len(DskData[FlushOut]) && DskData[FlushOut] == FlushBytes
 //
 //@ func (*originium.memtable).all -> r
@@ -794,17 +806,25 @@ package originium
 //@ assigns *c
 //@ ensures err == nil && c.SkipListMaxLevel > 0 && c.MemtableByteThreshold > 0 && c.DataBlockByteThreshold > 0 && c.L0TargetNum > 0 && c.LevelRatio > 0 && c.ImmutableBuffer >= 0
 //
-// C02 (Close keeps the committed state on disk, one step): Close removes the wal of the active
-// memtable without flushing it only when size() reported an empty memtable; otherwise the memtable
-// goes through flushImmutable, whose own contract removes the wal only after the table is durable.
-// Thin: only this assertion (and the lock / wait-level clauses of the C12 / C15 sweeps) is claimed.
+// C02 (Close keeps the committed state on disk, one step): Close asks the active memtable (the one
+// read under db.mu) for its size; when that is not zero the memtable goes through flushImmutable -
+// whose own contract hands memtable.all's result to flushToL0 unchanged and removes the wal only
+// after the table is durable - before Close returns; the wal of the active memtable is removed
+// without a flush only when size() reported an empty memtable.
+// Thin: only these assertions (and the lock / wait-level clauses of the C12 / C15 sweeps) are claimed.
 //@ ghost CloseSize Int
+//@ ghost CloseFlushed Bool
 //@ func (*originium.DB).Close
 //@ props C02
 //@ thin ^assert
 //@ assigns writeset
+//@ after_call (*originium.memtable).freeze#0: ghost CloseFlushed = false
+//@ before_call (*originium.memtable).size#0: assert arg0 == mt
 //@ after_call (*originium.memtable).size#0: ghost CloseSize = result
-//@ before_call (*wal.WAL).Delete#0: assert CloseSize <= 0
+//@ before_call (*originium.DB).flushImmutable#0: assert arg1 == mt
+//@ after_call (*originium.DB).flushImmutable#0: ghost CloseFlushed = true
+//@ before_call (*wal.WAL).Delete#0: assert CloseSize <= 0 && arg0 == mt.wal
+//@ at_exit exit: assert CloseSize <= 0 || CloseFlushed
 //
 // C02 (timestamp continuity): the oracle restarts exactly one above the larger of the two recovered
 // maxima - so above every version recovery put into the memtable (memtable.recover: r >= RecMaxSeen)
